@@ -44,6 +44,21 @@ CHECKS = {
   text="Generated-input search over configuration documents: every case is a generated project plus a configuration obtained from a valid one by at most one catalogue mutation (each required section/field dropped, unknown engine/version, malformed URL/e-mail/permission string/security scheme fields, wrong JSON types, broken documents, harmless variations), rendered as JSON or JSON5, optionally with one controller outside the globs and a second run with other permissions. The real CLI is run; the constraint table predicts accept/reject; rejection must come with a message naming the field, before any source is parsed (a glob-matched file with a syntax error must never be reported) and without writing anything; acceptance must put artefacts at the configured paths with the configured mode, package name, engine and version, and only glob-matched files may contribute. Sampling over projects; the mutation catalogue itself is finite and fully enumerated by the thorough tier many times.",
   note="Trusts: rapid; the mutation catalogue in props/process/c20_test.go is a transcription of definitions/structs.go tags; umask 022 set by the harness; the field may be named by JSON key or Go field name.",
   ref="6/C20"),
+ "C06": dict(
+  technique="model-based property testing with rapid: generated method signatures/annotations vs documented parameters, bodies and responses in both documents (hand-written Go->JSON-schema table)",
+  text="Generated-input search over method signatures: parameter lists over every primitive width, enums, aliases, query slices, pointers, context parameters, grouped declarations, wire-name aliases, validators, in every location; return shapes with values, custom error types, @Response and @ErrorResponse codes. For every documented operation of both documents the model predicts parameters (order, name, location, requiredness rule, schema), the JSON or urlencoded body, the success code/schema and each error response. Sampling.",
+  note="Trusts: rapid; the requiredness rule and the Go->schema table transcribed from the statement/OpenAPI meaning (props/static/schema_test.go); extra response codes are not judged here (C11).",
+  ref="6/C06"),
+ "C07": dict(
+  technique="model-based + metamorphic property testing with rapid: generated type graphs vs components.schemas; metamorphic pairs P/P' differing in one usage-site validator or one extra route",
+  text="Generated-input search over type graphs (structs, enums of several bases, typedef/assigned aliases, nested slices/pointers/maps, embedding, self and forward references, two type packages, unreachable types). The model predicts the reachable closure, each struct's properties/required/allOf, each enum's value set and type, each alias's primitive. A metamorphic step derives P' from P by adding one validator at a usage site of a named type and/or one route using a reachable type; every pre-existing component (other than the struct whose own declaration changed) must be byte-identical in 3.0 and in 3.1. Sampling.",
+  note="Trusts: rapid; the reachability/visibility rules transcribed from the statement; known findings replayed as witnesses and excluded by construction from the main profile.",
+  ref="6/C07"),
+ "C11": dict(
+  technique="differential property testing with rapid: one analysis, two emitters; independent OpenAPI reader normalises dialect and diffs structure",
+  text="Generated-input search over projects with validator-rich types and parameters: both documents are produced from the same analysis result and compared by an independent reader (no kin-openapi/libopenapi) after translating the dialect differences listed in internal/oas/diff.go; every structural difference is reported with a JSON pointer and a class (the class is the known-finding signature). Sampling.",
+  note="Trusts: rapid; the dialect table (exclusive bounds, false/empty vs absent, enum members by value, nullable); descriptions/titles are outside the statement and not compared; rule pairs writing the same keyword are excluded by construction (F-C11-2).",
+  ref="6/C11"),
 }
 
 NOT_APPLICABLE = []
